@@ -368,6 +368,8 @@ func TestVerif_C06_Bookkeeping(t *testing.T) {
 				}
 				ep := s.eps[rapid.IntRange(0, nEp-1).Draw(rt, "ep")]
 				to := s.ag.socks[rapid.IntRange(0, len(s.ag.socks)-1).Draw(rt, "to")]
+				// (an IPv4-mapped source on a socket bound to an IPv6 address is not generated: such a socket cannot
+				// receive IPv4 traffic, and the dual-stack UDP mux hands IPv4-mapped sources to its IPv4 connection)
 				if ep.priv.Addr().Is4() != to.priv.Addr().Is4() {
 					continue
 				}
